@@ -22,14 +22,24 @@
 (* Delegate, a Redelegate whose final power suffices, a lock set by        *)
 (* another module) both outcomes are allowed and the trace binds them.     *)
 (* Amounts are true integers.  Values near 2^63/2^64 are represented as    *)
-(* hi * HM + lo (HM = 1000000, |lo| < HM/2) by the driver, real value      *)
-(* hi * 2^63 + lo; U64Lim (= 2 * HM) stands for 2^64.                      *)
+(* hi * 10^8 + mid * 10^4 + lo by the driver for the real value            *)
+(* hi * 2^63 + mid * 10^6 + lo (|mid|, |lo| < 5000: no carries, so order   *)
+(* and sums are preserved); U64Lim (= 2 * 10^8) stands for 2^64.           *)
+(*                                                                         *)
+(* Power.  keeper.GetTotalPower = staking.GetDelegatorBonded + allowed     *)
+(* stakes, and GetDelegatorBonded (SDK 0.50) sums the delegations to ALL   *)
+(* validators whatever their status: a validator that is jailed (e.g. its  *)
+(* operator went below MinSelfDelegation) or that the end-blocker moved    *)
+(* out of the bonded set still counts.  Accounts include validator         *)
+(* operators, whose self-delegation is a delegation like any other.  The   *)
+(* trace check compares the code's power with this definition after every  *)
+(* step, across jailing and validator-set updates.                         *)
 (***************************************************************************)
 EXTENDS Integers, Sequences, FiniteSets, TLC
 
 CONSTANTS
     Acct,      \* accounts
-    Val,       \* bonded validators (share/token rate 1, no slashing)
+    Val,       \* validators (share/token rate 1, no slashing; they may be jailed and leave the bonded set)
     Vault,     \* vault keys
     Denom,     \* coin denominations that may be staked
     CoinSet,   \* coin vectors [Denom -> Nat] tried by Stake / Unstake
@@ -121,7 +131,9 @@ DelegateRej(a, v, n) == Rejected
 
 (***************************************************************************)
 (* staking.MsgUndelegate (partial: AfterDelegationModified, full removal:  *)
-(* BeforeDelegationRemoved).  Unbonding completion is out of scope.        *)
+(* BeforeDelegationRemoved).  Unbonding completion is out of scope.  The   *)
+(* rule is the same whatever the validator's state (jailed earlier in the  *)
+(* block, unbonding): the remaining power must cover every active lock.    *)
 (***************************************************************************)
 UndelegateAllowed(a, v, n) ==
     /\ n >= 1 /\ n <= deleg[a][v]
